@@ -13,6 +13,7 @@ import (
 	NoKV "github.com/feichai0017/NoKV"
 	"github.com/feichai0017/NoKV/utils"
 	"github.com/feichai0017/NoKV/verifhook"
+	"github.com/feichai0017/NoKV/vfs"
 
 	"verif/sim"
 )
@@ -35,7 +36,7 @@ func genC33(r *sim.Rand, tier string) *sim.Case {
 	ntasks := r.Pick(2, 2, 3, 3)
 	c.Cfg["tasks"] = int64(ntasks)
 	c.Cfg["sticky"] = int64(r.Pick(0, 2, 4, 8))
-	db := r.Intn(100) == 0
+	db := r.Intn(200) == 0
 	if db {
 		c.Cfg["db"] = 1
 	}
@@ -77,6 +78,7 @@ func execC33(t *testing.T, c *sim.Case) *sim.Result {
 		_ = os.MkdirAll(dir, 0o755)
 		defer os.RemoveAll(dir)
 		fs := sim.NewSimFS(dir)
+		lastIno := map[int]uint64{}
 		dbMode := c.CfgInt("db", 0) == 1
 		fs.Hook = func(op, path string) {
 			if dbMode && filepath.Base(path) != "LOCK" {
@@ -92,6 +94,12 @@ func execC33(t *testing.T, c *sim.Case) *sim.Result {
 				return !strings.HasPrefix(site, "fs.") && !strings.HasPrefix(site, "h.") && site != "dirlock.release.unlocked" && site != "start"
 			}
 		}
+		// which LOCK inode did the running contender open last (= the one it flocks)
+		lockFS := &lockSpyFS{SimFS: fs, opened: func(ino uint64) {
+			b.mu.Lock()
+			lastIno[b.running] = ino
+			b.mu.Unlock()
+		}}
 		ntasks := int(c.CfgInt("tasks", 2))
 		if ntasks < 1 {
 			ntasks = 1
@@ -115,15 +123,17 @@ func execC33(t *testing.T, c *sim.Case) *sim.Result {
 					b.emit(id, "acquire", 0, 0, "")
 					var release func() error
 					if dbMode {
-						db, err := openDB(dir, fs)
+						db, err := openDB(dir, lockFS)
 						if err != nil {
 							b.emit(id, "acquire_failed", 0, 0, classifyLockErr(err))
 							continue
 						}
-						h.ino = fileIno(os.Stat(filepath.Join(dir, "LOCK")))
+						b.mu.Lock()
+						h.ino = lastIno[id]
+						b.mu.Unlock()
 						release = db.Close
 					} else {
-						l, err := utils.AcquireDirLock(dir, fs)
+						l, err := utils.AcquireDirLock(dir, lockFS)
 						if err != nil {
 							b.emit(id, "acquire_failed", 0, 0, classifyLockErr(err))
 							continue
@@ -217,6 +227,20 @@ func execC33(t *testing.T, c *sim.Case) *sim.Result {
 	return res
 }
 
+// lockSpyFS reports the inode of every LOCK file a contender opens.
+type lockSpyFS struct {
+	*sim.SimFS
+	opened func(ino uint64)
+}
+
+func (l *lockSpyFS) OpenFileHandle(name string, flag int, perm os.FileMode) (vfs.File, error) {
+	f, err := l.SimFS.OpenFileHandle(name, flag, perm)
+	if err == nil && filepath.Base(name) == "LOCK" {
+		l.opened(fileIno(f.Stat()))
+	}
+	return f, err
+}
+
 func classifyLockErr(err error) string {
 	switch {
 	case err == nil:
@@ -231,7 +255,7 @@ func classifyLockErr(err error) string {
 
 // openDB opens a small NoKV.DB on dir; Open panics when the directory lock
 // cannot be taken.
-func openDB(dir string, fs *sim.SimFS) (db *NoKV.DB, err error) {
+func openDB(dir string, fs vfs.FS) (db *NoKV.DB, err error) {
 	defer func() {
 		if r := recover(); r != nil {
 			db, err = nil, fmt.Errorf("%v", r)
